@@ -34,8 +34,9 @@ ASSUMPTIONS = [
     'chemical lists: every subset of size 1-4 (thorough: 1-5) of (Methanol, Ethanol, Propanol, 1-Butanol), (Hexane, Heptane, Octane, Benzene, Toluene) '
     'and (Water, Ethanol, Methanol); packages: ideal (thermo.ideal()) and the default activity-coefficient package (Dortmund UNIFAC, ideal gas, no Poynting); '
     'plus Dortmund + IdealGasPoyintingCorrectionFactors on the subsets of (Water, Ethanol, Methanol)',
-    'compositions: simplex grid step 1/4 incl. zero components and vertices, plus 1e-8 trace entries; T in {260,300,350,400,480} K intersected with '
-    'every listed chemical\'s Psat range; P in {5e3, 101325, 1e6, 3e6} Pa; scale k in {0.5, 2, 10}; nothing is claimed between grid points',
+    'compositions: simplex grid step 1/4 incl. zero components and vertices, plus 1e-8 trace entries, plus one dominant component with a trace at 1e-17 / 1e-16 / 1e-15 in every ordered pair '
+    'of positions (quick: 1e-17 and one seed-rotated other level); the list (SO2, Ethanol, Methanol) adds a volatile member without group data in every position; T in {260,300,350,400,480} K intersected with '
+    'every listed chemical\'s Psat range; P in {5e3, 101325, 1e6, 3e6} Pa; scale k in {0.5, 2, 10, 1e-17, 1e-12, 1e6, 1e12} (quick: one seed-rotated of the first three + 1e-17 + 1e12); nothing is claimed between grid points',
     'quick tier (activity-coefficient package): core clauses on the full T and P grids; scale and permutation clauses at one seed-rotated T and one seed-rotated P '
     'with one seed-rotated k; lists of 4 are permuted by rotations and reversal only.  The ideal package and the thorough tier use the full sets.',
     'a P-specified case is judged only if the harness\' own residual changes sign between the ends of the temperature domain (the bubble/dew temperature lies inside the quantifier)',
@@ -58,10 +59,13 @@ FAMILIES = {
     'ALC': ('Methanol', 'Ethanol', 'Propanol', '1-Butanol'),
     'HC': ('Hexane', 'Heptane', 'Octane', 'Benzene', 'Toluene'),
     'WEM': ('Water', 'Ethanol', 'Methanol'),
+    'NG': ('SO2', 'Ethanol', 'Methanol'),        # SO2: volatile, NO Dortmund/UNIFAC groups (gamma = 1 by the no-group rule), listed in every position by the perm clause
 }
 T_GRID = (260.0, 300.0, 350.0, 400.0, 480.0)
 P_GRID = (5e3, 101325.0, 1e6, 3e6)
 K_GRID = (0.5, 2.0, 10.0)
+K_EXTREME = (1e-17, 1e-12, 1e6, 1e12)        # totals far below / above 1 ("unnormalised compositions z and k*z")
+DEEP_TRACE = (1e-17, 1e-16, 1e-15)            # trace levels around machine precision
 T_LO, T_HI = 260.0, 480.0
 TRACE = 1e-8
 
@@ -163,8 +167,19 @@ def trace_points(n):
             pts.append(tuple(x))
     return pts
 
-def compositions(n):
-    return simplex(n) + trace_points(n)
+def deep_trace_points(n, levels):
+    """one dominant component and one component at a trace level around machine precision, in EVERY ordered pair of positions"""
+    pts = []
+    for lv in levels:
+        for i in range(n):
+            for j in range(n):
+                if i == j: continue
+                x = [0.0] * n; x[i] = 1.0 - lv; x[j] = lv
+                pts.append(tuple(x))
+    return pts
+
+def compositions(n, levels=()):
+    return simplex(n) + trace_points(n) + (deep_trace_points(n, levels) if n >= 2 else [])
 
 # ---- the harness' own evaluation of the defining equations -------------------------------------------------
 
@@ -307,20 +322,22 @@ class Grid(System):
         full = tier == 'thorough' or self.full_in_quick
         cfgs = []
         if full:
-            Ts, Ps, ks = T_GRID, P_GRID, K_GRID
+            Ts, Ps, ks = T_GRID, P_GRID, K_GRID + K_EXTREME
             relT, relP = set(T_GRID), set(P_GRID)
+            levels = DEEP_TRACE
         else:
             Ts, Ps = T_GRID, P_GRID
-            ks = (K_GRID[seed % 3],)
+            ks = (K_GRID[seed % 3], K_EXTREME[0], K_EXTREME[3])
+            levels = (DEEP_TRACE[0], DEEP_TRACE[1 + seed % 2])
             relT = {(350.0, 300.0, 400.0)[seed % 3]}; relP = {(101325.0, 1e6, 5e3, 3e6)[seed % 4]}
         for pkg in self.pkgs:
             for ids in self._lists(tier):
                 lo, hi = domain(_chems(ids))
                 for T in Ts:
                     if lo <= T <= hi:
-                        cfgs.append((pkg, ids, 'T', T, T in relT, tuple(ks), full))
+                        cfgs.append((pkg, ids, 'T', T, T in relT, tuple(ks), full, tuple(levels)))
                 for P in Ps:
-                    cfgs.append((pkg, ids, 'P', P, P in relP, tuple(ks), full))
+                    cfgs.append((pkg, ids, 'P', P, P in relP, tuple(ks), full, tuple(levels)))
         # the engine hands contiguous slices to the workers: interleave heavy (long lists) and light configurations
         cfgs.sort(key=lambda c: (-len(c[1]), c[0], c[1], c[2], c[3]))
         B = 97
@@ -331,10 +348,11 @@ class Grid(System):
         return dict(packages=list(self.pkgs), chemical_lists=len(ls), list_sizes=sorted({len(l) for l in ls}))
 
     def build(self, config):
-        pkg, ids, spec, val, rel, ks, full = config
+        pkg, ids, spec, val, rel, ks, full, *rest = config        # (older witness files have no trace-level field)
         st = type('St', (), {})()
         st.m = model(pkg, ids)
         st.spec, st.val, st.rel, st.ks, st.full = spec, val, rel, ks, full
+        st.levels = tuple(rest[0]) if rest else ()
         st.tag = None
         return st
 
@@ -343,7 +361,7 @@ class Grid(System):
     def actions(self, st):
         n = len(st.m.ids)
         acts = []
-        zs = compositions(n)
+        zs = compositions(n, st.levels)
         for kind in ('bubble', 'dew'):
             for z in zs: acts.append(('core', kind, z))
         for z in zs: acts.append(('order', z))
